@@ -36,6 +36,10 @@ from .store.index import IndexDict, IndexKey, IndexValue, IndexValueIterator
 
 TYPES_FACTORY = TypesFactory()
 
+if not hasattr(component_factory, "__getitem__"):
+    # icalendar >= 6 turned icalendar.cal.component_factory into a module.
+    component_factory = component_factory.ComponentFactory()
+
 PropTypes = Union[vText]
 
 TzifyFunction = Callable[[datetime], datetime]
